@@ -149,6 +149,7 @@ class Sim:
         self.thorough = os.environ.get("VERIF_TIER_ACTIVE", "quick") == "thorough"
         self.violations: list[dict[str, Any]] = []
         self._fatal: Violation | None = None
+        self._restore: list[Callable[[], None]] = []
 
     # ----------------------------------------------------------- life-cycle
     def __enter__(self) -> "Sim":
@@ -173,6 +174,9 @@ class Sim:
             gc.enable()
 
     def _teardown(self) -> None:
+        for fn in reversed(self._restore):
+            fn()
+        self._restore.clear()
         loop = self.loop
         if loop.is_closed():
             return
@@ -222,6 +226,24 @@ class Sim:
     def scale(self, quick: int, thorough: int) -> int:
         """Size knob: the thorough tier explores longer histories / more actors, not only more seeds."""
         return thorough if self.thorough else quick
+
+    def tick_wall_clock_on_read(self, module: Any, us: int) -> None:
+        """Make every `datetime.now()` issued from `module` cost `us` microseconds (N2: time passes *inside* a
+        callback too, two consecutive reads of the wall clock differ).  Restored at the end of the run."""
+        import datetime as _dt
+
+        sim = self
+        orig = module.datetime
+
+        class TickingDatetime(_dt.datetime):
+            @classmethod
+            def now(cls, tz: Any = None) -> Any:  # type: ignore[override]
+                sim.loop.advance(us)
+                return _dt.datetime.now(tz)
+
+        module.datetime = TickingDatetime
+        self._restore.append(lambda: setattr(module, "datetime", orig))
+        self.fault("wall_clock_ticks_between_reads")
 
     def stall(self, us: int) -> None:
         """Block the loop for `us` µs (GC pause / blocking call / CPU starvation)."""
